@@ -46,6 +46,12 @@ struct Fmt {
 const NUM_CHARS: &str = "0#?.,%Ee+-/@123456789$(): !^&'~{}<>=";
 const STRUCTURAL: &str = "[];\"\\_";
 
+/// placeholder / bare literal characters of the grammar: the ASCII list, and every character outside ASCII
+fn is_num_char(c: char) -> bool {
+    NUM_CHARS.contains(c) || (c as u32) >= 128
+}
+/// letters whose Unicode upper- or lower-casing expands or lands in A–Z / a–z (ß→SS, ſ→S, ﬆ→ST, ẖ→H+◌̱, ẙ→Y+◌̊, ẚ, K→k, İ→i+◌̇ …)
+const CASE_TRAPS: &str = "ßſﬆﬅẖẙẚı\u{212A}ǆŉǰµİ\u{212B}";
 fn run_of(s: &str, lo: char, up: char) -> bool {
     !s.is_empty() && s.chars().all(|c| c == lo || c == up)
 }
@@ -106,7 +112,7 @@ impl Tok {
         match self {
             Tok::Lit(s) => !s.contains('"'),
             Tok::Esc(_) | Tok::Pad(_) => true,
-            Tok::Fill(c) | Tok::Num(c) => NUM_CHARS.contains(*c),
+            Tok::Fill(c) | Tok::Num(c) => is_num_char(*c),
             Tok::Brk(b) => !b.chars().any(|c| STRUCTURAL.contains(c)) && !is_elapsed_body(b),
             Tok::Elapsed(b) => is_elapsed_body(b),
             Tok::DateTok(s) => is_date_run(s) || is_ampm(s),
@@ -258,7 +264,7 @@ fn parse_format(text: &str) -> Option<Fmt> {
                     '\\' => Tok::Esc(d),
                     '_' => Tok::Pad(d),
                     _ => {
-                        if !NUM_CHARS.contains(d) {
+                        if !is_num_char(d) {
                             return None;
                         }
                         Tok::Fill(d)
@@ -304,7 +310,7 @@ fn parse_format(text: &str) -> Option<Fmt> {
                 cur.push(Tok::General(s));
                 i += 7;
             }
-            c if NUM_CHARS.contains(c) => {
+            c if is_num_char(c) => {
                 cur.push(Tok::Num(c));
                 i += 1;
             }
@@ -912,7 +918,7 @@ fn gen_brk(rng: &mut Rng) -> Tok {
         format!("DBNum{}", rng.range(1, 4))
     } else if k < 92 {
         // bodies that start like an elapsed unit but are not one
-        rng.pick(&["hm", "sx", "mh", "Mx", "hhm", "h h", "ms", "Hs", "h0", "m-", "ssS.", "hH d"]).to_string()
+        rng.pick(&["hm", "sx", "mh", "Mx", "hhm", "h h", "ms", "Hs", "h0", "m-", "ssS.", "hH d", "ẖ", "ß", "ſſ", "hſ", "ẖh"]).to_string()
     } else if k < 95 {
         String::new()
     } else {
@@ -936,7 +942,11 @@ fn gen_datetok(rng: &mut Rng) -> Tok {
     }
 }
 fn gen_num(rng: &mut Rng) -> Tok {
-    Tok::Num(pick_char(rng, NUM_CHARS))
+    if rng.chance(1, 12) {
+        Tok::Num(pick_char(rng, CASE_TRAPS))
+    } else {
+        Tok::Num(pick_char(rng, NUM_CHARS))
+    }
 }
 fn gen_neutral(rng: &mut Rng) -> Tok {
     let k = rng.below(100);
@@ -1098,9 +1108,21 @@ impl StyleCase {
         let xfs = w[5].split(',').map(|x| x.parse().ok()).collect::<Option<Vec<u16>>>()?;
         Some(StyleCase { kind, defs, xfs, date1904: w[3] == "1", seed: w[2].parse().ok()? })
     }
+    /// xls: definition `i` is written AFTER the XF records (in front of the globals' EOF) instead of before them; the
+    /// reader collects all FORMAT records before it resolves the XFs, so the order is immaterial (decided from the
+    /// seed alone so that the expectation and the writer agree)
+    fn late(&self, i: usize) -> bool {
+        self.kind == "xls" && Rng::new(self.seed ^ (i as u64 + 1).wrapping_mul(0x9E37_79B9_7F4A_7C15)).below(3) == 0
+    }
+    /// the definitions in the order the file holds them
+    fn file_defs(&self) -> Vec<&(u16, Fmt)> {
+        let mut v: Vec<&(u16, Fmt)> = self.defs.iter().enumerate().filter(|(i, _)| !self.late(*i)).map(|(_, d)| d).collect();
+        v.extend(self.defs.iter().enumerate().filter(|(i, _)| self.late(*i)).map(|(_, d)| d));
+        v
+    }
     /// the class the property assigns to format id `id`; None = no expectation (see the rule string)
     fn expected(&self, id: u16) -> Option<&'static str> {
-        match self.defs.iter().rev().find(|d| d.0 == id) {
+        match self.file_defs().into_iter().rev().find(|d| d.0 == id) {
             Some((_, f)) => {
                 if !f.wf() || f.render().is_empty() {
                     return None;
@@ -1119,17 +1141,19 @@ impl StyleCase {
         let defs = if self.defs.is_empty() {
             "-".to_string()
         } else {
-            self.defs.iter().map(|(id, f)| format!("{id}:{}", hex(f.render().as_bytes()))).collect::<Vec<_>>().join(",")
+            self.file_defs().into_iter().map(|(id, f)| format!("{id}:{}", hex(f.render().as_bytes()))).collect::<Vec<_>>().join(",")
         };
         format!("styles {} {} {}", self.kind, defs, self.xfs.iter().map(|x| x.to_string()).collect::<Vec<_>>().join(","))
     }
     /// the workbook bytes and, per XF index, the expected numeric value of each cell written in row = XF index
     /// … and the driver request that makes the Lean decoder (`Model/FormatsDecode.lean`) read exactly the styles part /
     /// stream that was written
-    fn build(&self) -> (Vec<u8>, Vec<Vec<f64>>, String) {
+    /// … and the numeric cells written WITHOUT a style of their own (xlsx: in rows that may carry a row style)
+    fn build(&self) -> (Vec<u8>, Vec<Vec<f64>>, String, Vec<(u32, u32, f64)>) {
         use verif_harness::{xlsbw, xlsw, xlsxw};
         let mut rng = Rng::new(self.seed);
         let mut expect: Vec<Vec<f64>> = vec![];
+        let mut plain: Vec<(u32, u32, f64)> = vec![];
         match self.kind {
             "xlsx" => {
                 let mut book = xlsxw::XlsxBook::new();
@@ -1146,13 +1170,26 @@ impl StyleCase {
                     let v1 = *rng.pick(&FILE_VALUES);
                     sh.set(i as u32, 0, xlsxw::XCell::num(&format!("{v0}")).with_style(i as u32));
                     sh.set(i as u32, 1, xlsxw::XCell::num(&format!("{v1:e}")).with_style(i as u32).with_formula("1+1"));
+                    // a number and a cached formula result with NO style of their own, in the same row
+                    sh.set(i as u32, 2, xlsxw::XCell::num("44197.75"));
+                    sh.set(i as u32, 3, xlsxw::XCell::num("0.5").with_formula("1/2"));
+                    plain.push((i as u32, 2, 44197.75));
+                    plain.push((i as u32, 3, 0.5));
                     expect.push(vec![v0, v1]);
                 }
                 book.sheets.push(sh);
                 let mut layout = xlsxw::Layout::random(&mut rng);
                 layout.pct_noise = 0;
+                // half of the workbooks format every row as a whole (`<row s=".." customFormat="1">`, the index drawn
+                // among the cell XFs: dates, elapsed, plain) and a third flag every <xf> with applyNumberFormat / xfId
+                if self.seed % 2 == 0 {
+                    layout.pct_row_style = 100;
+                }
+                if self.seed % 3 == 0 {
+                    layout.pct_xf_apply_flag = 100;
+                }
                 let decode = format!("xlsxstyles {}", xlsxw::ev_wire(&xlsxw::render_styles(&book, &layout)));
-                (book.build(&layout).bytes, expect, decode)
+                (book.build(&layout).bytes, expect, decode, plain)
             }
             "xlsb" => {
                 let mut book = xlsbw::XlsbBook::new();
@@ -1178,12 +1215,20 @@ impl StyleCase {
                 }
                 book.sheets.push(sh);
                 let decode = format!("xlsbstyles {}", hex(&book.styles_part(&self.xfs)));
-                (book.to_bytes(), expect, decode)
+                (book.to_bytes(), expect, decode, plain)
             }
             _ => {
                 let mut book = xlsw::XlsBook::new();
                 book.date1904 = self.date1904;
-                book.formats = self.defs.iter().map(|(id, f)| (*id, f.render())).collect();
+                book.formats = self.defs.iter().enumerate().filter(|(i, _)| !self.late(*i)).map(|(_, (id, f))| (*id, f.render())).collect();
+                for (i, (id, f)) in self.defs.iter().enumerate() {
+                    if self.late(i) {
+                        // a FORMAT record after the XF records
+                        let mut p = id.to_le_bytes().to_vec();
+                        p.extend(xlsw::xl_unicode_string(&f.render(), None, &mut Rng::new(self.seed ^ i as u64)));
+                        book.globals_tail.push((xlsw::FORMAT, p));
+                    }
+                }
                 book.xfs = self.xfs.clone();
                 let mut sh = xlsw::XlsSheet::new("S");
                 for i in 0..self.xfs.len() {
@@ -1215,7 +1260,7 @@ impl StyleCase {
                     opts.sector_size = 512;
                 }
                 let decode = format!("xlsstream {}", hex(&wb));
-                (verif_harness::cfbw::write_cfb(&[(book.stream_name.clone(), wb)], &opts, &mut rng), expect, decode)
+                (verif_harness::cfbw::write_cfb(&[(book.stream_name.clone(), wb)], &opts, &mut rng), expect, decode, plain)
             }
         }
     }
@@ -1293,7 +1338,7 @@ fn cell_letter(c: &str) -> char {
 fn check_file(case: &StyleCase, drv: &mut Driver, out: &mut Out, shrink: bool) -> bool {
     let input = case.wire();
     let model = drv.ask(&case.model_request());
-    let (bytes, values, decode_req) = case.build();
+    let (bytes, values, decode_req, plain_cells) = case.build();
     if let Ok(path) = std::env::var("VERIF_DUMP") {
         let _ = std::fs::write(path, &bytes);
     }
@@ -1364,6 +1409,23 @@ fn check_file(case: &StyleCase, drv: &mut Driver, out: &mut Out, shrink: bool) -
         if let Some(c) = exp {
             if letter(c) as char != m && model != "panic" {
                 out.fail("model_vs_spec", "theorem:style_lookup", &input, "", &model, c);
+            }
+        }
+    }
+    // cells without a style of their own: plain numbers whatever their row's style is
+    if !plain_cells.is_empty() {
+        let m = drv.ask(&format!("xlsxcell {} absent", if model.chars().all(|c| "ODT".contains(c)) { model.as_str() } else { "O" }));
+        for (r, c, v) in &plain_cells {
+            let got = canon_cell(range.get_value((*r, *c)));
+            let want = expect_cell("Other", *v, case.date1904);
+            if got != want {
+                let shown = format!("{input}   [cell ({r},{c}) has no style of its own]");
+                out.fail("impl_vs_spec", &format!("file:{}:unstyled-cell", case.kind), &shown, &got, &m, &want);
+                ok = false;
+                break;
+            }
+            if m != "N" {
+                out.fail("model_vs_spec", "model:xlsx-unstyled-cell", &input, &got, &m, &want);
             }
         }
     }
@@ -2234,6 +2296,46 @@ fn main() {
         }
         for kind in ["xlsx", "xlsb", "xls"] {
             let c = StyleCase { kind, defs: vec![(164, date.clone()), (165, el.clone()), (166, num.clone())], xfs: vec![0, 164, 165, 166], date1904: false, seed: 11 };
+            check_file(&c, &mut drv, &mut out, false);
+            out.cases.push((c.wire(), true));
+            out.count("corpus");
+        }
+    }
+    // third-round seeded changes:
+    //   m9  — a <row s=".." customFormat="1"> must not format the row's cells that have no `s` (seed even: every row styled)
+    //   m12 — applyNumberFormat="0" / xfId on a cell <xf> must not replace its own numFmtId (seed % 3 == 0: every xf flagged)
+    //   m11 — xls: a FORMAT record that re-declares a built-in id and stands AFTER the XF records still counts
+    //   m10 — ß ſ ﬆ ẖ ẙ … written without quotes are literal text, not the date letters their upper-casing starts with
+    for seed in [6u64, 12, 18, 24, 30, 36] {
+        let c = StyleCase { kind: "xlsx", defs: vec![], xfs: vec![0, 14, 46, 2, 22, 21], date1904: seed % 4 == 0, seed };
+        check_file(&c, &mut drv, &mut out, false);
+        out.cases.push((c.wire(), true));
+        out.count("corpus");
+    }
+    {
+        let plain = Fmt { sections: vec![vec![Tok::Num('0'), Tok::Num('.'), Tok::Num('0'), Tok::Num('0')]] };
+        let date = Fmt { sections: vec![vec![Tok::DateTok("yyyy".into()), Tok::Num('-'), Tok::DateTok("mm".into())]] };
+        let el = Fmt { sections: vec![vec![Tok::DateTok("hh".into()), Tok::Num(':'), Tok::DateTok("mm".into())]] };
+        let mut found = 0;
+        for seed in 0u64..400 {
+            let c = StyleCase { kind: "xls", defs: vec![(14, plain.clone()), (2, date.clone()), (46, el.clone())], xfs: vec![0, 14, 2, 46], date1904: false, seed };
+            if c.late(0) && c.late(1) {
+                check_file(&c, &mut drv, &mut out, false);
+                out.cases.push((c.wire(), true));
+                out.count("corpus");
+                found += 1;
+                if found == 3 {
+                    break;
+                }
+            }
+        }
+        assert!(found == 3);
+        for (i, text) in ["0.00 ß", "0.0ſ", "0 ﬆ", "#,##0 ẙ", "[ẖ]0.0", "0 ẚ/0", "0.0 \u{212A}"].iter().enumerate() {
+            let f = parse_format(text).expect("case-trap format parses");
+            assert!(f.wf() && f.classify() == "Other", "{text}");
+            check_gram(&f, &mut drv, &mut out, false);
+            out.cases.push((format!("gram {}", f.wire()), true));
+            let c = StyleCase { kind: ["xlsx", "xlsb", "xls"][i % 3], defs: vec![(164, f)], xfs: vec![0, 164], date1904: false, seed: 5 };
             check_file(&c, &mut drv, &mut out, false);
             out.cases.push((c.wire(), true));
             out.count("corpus");
